@@ -402,6 +402,24 @@ def checkProofR_prefix (P : Params) (fl : Flavour) (gens : List Nat) (pk : Nat)
     else if es.length ≠ hs.length then .error .panic      -- `assert!(N == h_generators.len())`
     else checkProofCoreR P fl h0 hs pk pf es ePrimes label
 
+/-- what a verifying party does with a shuffle received as bytes: decode the public key, the
+    proof and the two ciphertext vectors (`strand_deserialize`), then `check_proof`.  The
+    generators are derived locally (`Ctx::generators`). -/
+def verifyShuffleBytesR (P : Params) (fl : Flavour) (gens : List Nat)
+    (pkB pfB esB ePrimesB label : Bytes) : Res Bool :=
+  match tryFromSliceR (natCodecER P fl) pkB with
+  | .error e => .error e
+  | .ok pk =>
+  match shuffleProofFromBytesR P fl pfB with
+  | .error e => .error e
+  | .ok pf =>
+  match ctsFromBytesR P fl esB with
+  | .error e => .error e
+  | .ok es =>
+  match ctsFromBytesR P fl ePrimesB with
+  | .error e => .error e
+  | .ok ePrimes => checkProofR P fl gens pk pf es ePrimes label
+
 /-! ### keymaker -/
 
 /-- `Keymaker::verify_decryption_factors`: the two `assert_eq!` on the lengths, then the pure
